@@ -35,15 +35,6 @@ impl MemoryFS {
         }
     }
 
-    fn ensure_has_parent(&self, path: &str) -> VfsResult<()> {
-        let separator = path.rfind('/');
-        if let Some(index) = separator {
-            if self.exists(&path[..index])? {
-                return Ok(());
-            }
-        }
-        Err(VfsErrorKind::Other("Parent path does not exist".into()).into())
-    }
 }
 
 impl Default for MemoryFS {
@@ -164,43 +155,19 @@ impl Seek for ReadableFile {
 
 impl FileSystem for MemoryFS {
     fn read_dir(&self, path: &str) -> VfsResult<Box<dyn Iterator<Item = String> + Send>> {
-        let prefix = format!("{}/", path);
         #[cfg(feature = "verif-hooks")]
         crate::verif_hooks::yield_point("memfs:scan");
         let handle = self.handle.read().unwrap();
-        let mut found_directory = None;
-        #[allow(clippy::needless_collect)] // need collect to satisfy lifetime requirements
-        let entries: Vec<_> = handle
-            .files
-            .iter()
-            .filter_map(|(candidate_path, candidate)| {
-                if candidate_path == path {
-                    found_directory = Some(candidate.file_type);
-                }
-                if candidate_path.starts_with(&prefix) {
-                    let rest = &candidate_path[prefix.len()..];
-                    if !rest.contains('/') {
-                        return Some(rest.to_string());
-                    }
-                }
-                None
-            })
-            .collect();
-        match found_directory {
-            None => return Err(VfsErrorKind::FileNotFound.into()),
-            Some(VfsFileType::File) => {
-                return Err(VfsErrorKind::Other("Not a directory".into()).into())
-            }
-            Some(VfsFileType::Directory) => {}
-        }
-        Ok(Box::new(entries.into_iter()))
+        Ok(Box::new(handle.list(path)?.into_iter()))
     }
 
     fn create_dir(&self, path: &str) -> VfsResult<()> {
-        self.ensure_has_parent(path)?;
         #[cfg(feature = "verif-hooks")]
         crate::verif_hooks::yield_point("memfs:insert_dir");
-        let map = &mut self.handle.write().unwrap().files;
+        // check and insert under one lock, so that the parent cannot vanish in between
+        let mut handle = self.handle.write().unwrap();
+        handle.ensure_has_parent(path)?;
+        let map = &mut handle.files;
         let entry = map.entry(path.to_string());
         match entry {
             Entry::Occupied(file) => {
@@ -240,11 +207,11 @@ impl FileSystem for MemoryFS {
     }
 
     fn create_file(&self, path: &str) -> VfsResult<Box<dyn SeekAndWrite + Send>> {
-        self.ensure_has_parent(path)?;
         let content = Arc::new(Vec::<u8>::new());
         #[cfg(feature = "verif-hooks")]
         crate::verif_hooks::yield_point("memfs:insert_file");
         let mut handle = self.handle.write().unwrap();
+        handle.ensure_has_parent(path)?;
         if let Some(existing) = handle.files.get(path) {
             ensure_file(existing)?;
         }
@@ -354,12 +321,13 @@ impl FileSystem for MemoryFS {
     }
 
     fn remove_dir(&self, path: &str) -> VfsResult<()> {
-        if self.read_dir(path)?.next().is_some() {
-            return Err(VfsErrorKind::Other("Directory to remove is not empty".into()).into());
-        }
         #[cfg(feature = "verif-hooks")]
         crate::verif_hooks::yield_point("memfs:remove");
+        // check and remove under one lock, so that no entry can appear in between
         let mut handle = self.handle.write().unwrap();
+        if !handle.list(path)?.is_empty() {
+            return Err(VfsErrorKind::Other("Directory to remove is not empty".into()).into());
+        }
         handle
             .files
             .remove(path)
@@ -387,6 +355,43 @@ impl MemoryFsImpl {
             },
         );
         Self { files }
+    }
+
+    fn ensure_has_parent(&self, path: &str) -> VfsResult<()> {
+        let separator = path.rfind('/');
+        if let Some(index) = separator {
+            if self.files.contains_key(&path[..index]) {
+                return Ok(());
+            }
+        }
+        Err(VfsErrorKind::Other("Parent path does not exist".into()).into())
+    }
+
+    /// The names of the entries of the directory at `path`
+    fn list(&self, path: &str) -> VfsResult<Vec<String>> {
+        let prefix = format!("{}/", path);
+        let mut found_directory = None;
+        let entries: Vec<_> = self
+            .files
+            .iter()
+            .filter_map(|(candidate_path, candidate)| {
+                if candidate_path == path {
+                    found_directory = Some(candidate.file_type);
+                }
+                if candidate_path.starts_with(&prefix) {
+                    let rest = &candidate_path[prefix.len()..];
+                    if !rest.contains('/') {
+                        return Some(rest.to_string());
+                    }
+                }
+                None
+            })
+            .collect();
+        match found_directory {
+            None => Err(VfsErrorKind::FileNotFound.into()),
+            Some(VfsFileType::File) => Err(VfsErrorKind::Other("Not a directory".into()).into()),
+            Some(VfsFileType::Directory) => Ok(entries),
+        }
     }
 }
 
